@@ -101,10 +101,12 @@ extern "C" fn bit_complete<'a>(it: *mut rodbus_ffi::BitValueIterator<'a>, ctx: *
             }
             items.push(((*p).index, (*p).value));
         }
+        // an exhausted iterator stays exhausted
+        let more = !ffi::rodbus_bit_value_iterator_next(it).is_null();
         let c = inner(ctx);
         let mut st = c.st.lock().unwrap();
         st.complete += 1;
-        st.results.push(bits_text(&items));
+        st.results.push(format!("{}{}", bits_text(&items), if more { "!more" } else { "" }));
         c.cv.notify_all();
     }
 }
@@ -119,10 +121,11 @@ extern "C" fn reg_complete<'a>(it: *mut rodbus_ffi::RegisterValueIterator<'a>, c
             }
             items.push(((*p).index, (*p).value));
         }
+        let more = !ffi::rodbus_register_value_iterator_next(it).is_null();
         let c = inner(ctx);
         let mut st = c.st.lock().unwrap();
         st.complete += 1;
-        st.results.push(regs_text(&items));
+        st.results.push(format!("{}{}", regs_text(&items), if more { "!more" } else { "" }));
         c.cv.notify_all();
     }
 }
